@@ -1,3 +1,196 @@
+//! csverif — runtime-monitoring harness for cardinalsin (see /verif/DESIGN.md).
+//!
+//! usage: csverif <PROPERTY|selftest> [--tier quick|thorough] [--seed N]
+//!        (internal) --shard i/n --out <file>
+
+mod checks;
+mod clock;
+mod outcome;
+mod rng;
+mod sim;
+mod util;
+
+use outcome::{Outcome, RunInfo};
+
+pub struct Ctx {
+    pub seed: u64,
+    pub thorough: bool,
+    pub shard: u64,
+    pub nshards: u64,
+}
+
+impl Ctx {
+    pub fn rng(&self, prop: &str, case: u64) -> rng::Rng {
+        rng::Rng::derive(self.seed, prop, self.shard, case)
+    }
+    /// `total` cases split over shards: the cases this shard runs.
+    pub fn my_cases(&self, total: u64) -> std::ops::Range<u64> {
+        let per = (total + self.nshards - 1) / self.nshards;
+        let lo = (self.shard * per).min(total);
+        let hi = ((self.shard + 1) * per).min(total);
+        lo..hi
+    }
+}
+
 fn main() {
-    println!("csverif skeleton");
+    let args: Vec<String> = std::env::args().collect();
+    if args.len() < 2 {
+        eprintln!("usage: csverif <PROPERTY|selftest> [--tier quick|thorough] [--seed N]");
+        std::process::exit(2);
+    }
+    let prop = args[1].clone();
+    let mut tier = std::env::var("VERIF_TIER").unwrap_or_else(|_| "quick".into());
+    let mut seed: u64 = std::env::var("VERIF_SEED")
+        .ok()
+        .and_then(|s| s.parse().ok())
+        .unwrap_or(1);
+    let mut shard: Option<(u64, u64)> = None;
+    let mut out_path: Option<String> = None;
+    let mut i = 2;
+    while i < args.len() {
+        match args[i].as_str() {
+            "--tier" => {
+                tier = args[i + 1].clone();
+                i += 1;
+            }
+            "quick" | "thorough" => tier = args[i].clone(),
+            "--seed" => {
+                seed = args[i + 1].parse().unwrap_or(1);
+                i += 1;
+            }
+            "--shard" => {
+                let mut it = args[i + 1].split('/');
+                let a = it.next().and_then(|x| x.parse().ok()).unwrap_or(0);
+                let b = it.next().and_then(|x| x.parse().ok()).unwrap_or(1);
+                shard = Some((a, b));
+                i += 1;
+            }
+            "--out" => {
+                out_path = Some(args[i + 1].clone());
+                i += 1;
+            }
+            _ => {}
+        }
+        i += 1;
+    }
+    if tier != "thorough" {
+        tier = "quick".into();
+    }
+    let thorough = tier == "thorough";
+
+    if prop == "selftest" {
+        match clock::selftest() {
+            Ok(()) => {
+                println!("selftest ok: clock interposition effective");
+                std::process::exit(0)
+            }
+            Err(e) => {
+                println!("selftest FAILED: {e}");
+                std::process::exit(2)
+            }
+        }
+    }
+
+    let spec = match checks::spec(&prop) {
+        Some(s) => s,
+        None => {
+            eprintln!("unknown property {prop}");
+            std::process::exit(2);
+        }
+    };
+    sim::install_hooks();
+    util::quiet_panics();
+
+    if let Some((s, n)) = shard {
+        // child: run one shard, dump the outcome
+        let ctx = Ctx {
+            seed,
+            thorough,
+            shard: s,
+            nshards: n,
+        };
+        util::start_watchdog(if thorough { 5400 } else { 900 }, &prop);
+        let out = (spec.run)(&ctx);
+        let p = out_path.expect("--out");
+        std::fs::write(&p, serde_json::to_vec(&out).unwrap()).expect("write outcome");
+        std::process::exit(0);
+    }
+
+    let t0 = clock::real_mono_ns();
+    let nshards = if thorough {
+        spec.shards_thorough
+    } else {
+        spec.shards_quick
+    };
+    let mut merged = Outcome::new(&prop, "");
+    merged.exhaustive = true;
+    if nshards <= 1 {
+        let ctx = Ctx {
+            seed,
+            thorough,
+            shard: 0,
+            nshards: 1,
+        };
+        util::start_watchdog(if thorough { 5400 } else { 900 }, &prop);
+        merged.merge((spec.run)(&ctx));
+    } else {
+        let exe = std::env::current_exe().expect("exe");
+        let tmpdir = util::scratch_dir(&format!("{}-outs", prop));
+        let mut kids = vec![];
+        for s in 0..nshards {
+            let outp = format!("{}/shard{}.json", tmpdir, s);
+            let child = std::process::Command::new(&exe)
+                .arg(&prop)
+                .arg("--tier")
+                .arg(&tier)
+                .arg("--seed")
+                .arg(seed.to_string())
+                .arg("--shard")
+                .arg(format!("{}/{}", s, nshards))
+                .arg("--out")
+                .arg(&outp)
+                .stdout(std::process::Stdio::null())
+                .stderr(std::process::Stdio::piped())
+                .spawn()
+                .expect("spawn shard");
+            kids.push((s, outp, child));
+        }
+        for (s, outp, child) in kids {
+            let res = child.wait_with_output();
+            match std::fs::read(&outp)
+                .ok()
+                .and_then(|b| serde_json::from_slice::<Outcome>(&b).ok())
+            {
+                Some(o) => merged.merge(o),
+                None => {
+                    let (code, err) = match res {
+                        Ok(o) => (
+                            format!("{:?}", o.status),
+                            String::from_utf8_lossy(&o.stderr)
+                                .lines()
+                                .rev()
+                                .take(6)
+                                .collect::<Vec<_>>()
+                                .join(" | "),
+                        ),
+                        Err(e) => (format!("{e}"), String::new()),
+                    };
+                    merged.inconclusive(&format!("shard {s} produced no outcome ({code}) {err}"));
+                }
+            }
+        }
+        let _ = std::fs::remove_dir_all(&tmpdir);
+    }
+    merged.property = prop.clone();
+    let wall = (clock::real_mono_ns() - t0) as f64 / 1e9;
+    let info = RunInfo {
+        tier,
+        seed,
+        level: spec.level.to_string(),
+        wall_s: wall,
+        min_evaluations: spec.min_evaluations,
+        min_nontrivial: spec.min_nontrivial,
+    };
+    let code = outcome::finish(&merged, &info);
+    std::process::exit(code);
 }
